@@ -2224,6 +2224,34 @@ mod tests {
     }
 
     #[test]
+    fn open_creating_non_existing_file_with_dot_dot_in_path() {
+        let system = VirtualSystem::new();
+        let _ = system
+            .open(
+                c"/dir/file",
+                OfdAccess::WriteOnly,
+                OpenFlag::Create.into(),
+                Mode::empty(),
+            )
+            .now_or_never()
+            .unwrap();
+
+        let result = system
+            .open(
+                c"dir/../new_file",
+                OfdAccess::WriteOnly,
+                OpenFlag::Create.into(),
+                Mode::empty(),
+            )
+            .now_or_never()
+            .unwrap();
+        assert_eq!(result, Ok(Fd(4)));
+
+        let file = system.state.borrow().file_system.get("/new_file").unwrap();
+        assert_matches!(&file.borrow().body, FileBody::Regular { .. });
+    }
+
+    #[test]
     fn open_creating_non_existing_file_umask() {
         let system = VirtualSystem::new();
         system.umask(Mode::from_bits_retain(0o125));
